@@ -1,18 +1,20 @@
 #!/bin/bash
 # usage: tools/try_mutant.sh <patch.diff> <tier> <ID> [<ID>...]
-# Applies a seeded change to /repo, runs the named checks, and always reverts /repo.
+# Applies a seeded change to the repository copy, runs the named checks, and always reverts.
+# Environment: RROOT (default /repo) = tree to patch and to build from; VROOT (default /verif) = framework to run.
 P=$1; TIER=$2; shift 2
-cd /repo || exit 2
-if ! git diff --quiet; then echo "/repo has uncommitted changes; refusing"; exit 2; fi
-trap 'git -C /repo checkout -- . ; echo "[reverted /repo]"' EXIT
+RROOT=${RROOT:-/repo}; VROOT=${VROOT:-/verif}
+cd $RROOT || exit 2
+if ! git diff --quiet; then echo "$RROOT has uncommitted changes; refusing"; exit 2; fi
+trap 'git -C $RROOT checkout -- . ; echo "[reverted $RROOT]"' EXIT
 git apply "$P" || { echo "patch does not apply"; exit 2; }
-cd /verif
+cd $VROOT
 for id in "$@"; do
   s=$(date +%s)
-  out=$(bin/check $id --tier $TIER 2>/tmp/try_mutant.err | grep -E "^VIOLATION|^KNOWN" | cut -c1-160)
-  rc=${PIPESTATUS[0]}
+  out=$(SLU_SRC=$RROOT timeout 900 bin/check $id --tier $TIER 2>/tmp/try_mutant.$$.err | grep -E "^VIOLATION|^KNOWN" | cut -c1-160)
   nv=$(echo "$out" | grep -c "^VIOLATION")
   echo "== $id: violations=$nv ($(($(date +%s)-s))s)"
   echo "$out" | grep "^VIOLATION" | head -3
-  grep -E "^  sig=" /tmp/try_mutant.err | head -3 | cut -c1-260
+  grep -E "^  sig=" /tmp/try_mutant.$$.err | head -3 | cut -c1-260
+  rm -f /tmp/try_mutant.$$.err
 done
